@@ -442,6 +442,7 @@ type Outcome struct {
 	Preemptions int
 	Log         []string
 	Parked      []string // threads parked in a benign Await at the end
+	Obs         string   // what Config.Observe returned (part of the digest)
 	Unstarted   []string
 	sigs        []uint32
 	nopts       []int32
@@ -466,6 +467,7 @@ func (o *Outcome) Digest() uint64 {
 	for _, p := range o.Parked {
 		h.Write([]byte(p))
 	}
+	h.Write([]byte(o.Obs))
 	return h.Sum64()
 }
 
@@ -507,6 +509,16 @@ type Config struct {
 	// VerifyEvery: every n-th execution is replayed twice from its choice list
 	// and the digests compared (0 = never). A mismatch panics (harness error).
 	VerifyEvery int64
+	// Observe (optional) is called in controller context at the end of EVERY
+	// execution (also verification replays); its result is part of the digest
+	// that replay determinism is judged on.
+	Observe func(o *Outcome) string
+	// DivergenceRetries: the code under test may contain nondeterminism the
+	// scheduler cannot own (Go map iteration order inside close()/gc loops).
+	// When > 0, an execution whose prefix diverges from the recorded run is
+	// re-executed up to this many times until it matches (Stats.Retries counts
+	// them); 0 = any divergence is a hard error.
+	DivergenceRetries int
 	// GCEvery: the collector is switched off while executions run and invoked
 	// manually every n executions (sync.Pool determinism). 0 = default 4096.
 	GCEvery int64
@@ -520,6 +532,7 @@ type Stats struct {
 	MaxPoints   int
 	MaxPreempt  int
 	Verified    int64 // executions replayed twice with identical digests
+	Retries     int64 // re-executions after a divergence (DivergenceRetries > 0)
 	Capped      bool
 	Deadlocks   int64
 	Livelocks   int64
@@ -546,6 +559,16 @@ func newRun(prefix []int, expect []uint32, horizon int) *Run {
 
 // execute runs one execution with the given prefix (then choice 0 forever).
 func execute(setup func(r *Run), prefix []int, expect []uint32, horizon int, final func(o *Outcome)) *Outcome {
+	o, fatal := tryExecute(setup, prefix, expect, horizon, final)
+	if fatal != "" {
+		panic(fatal)
+	}
+	return o
+}
+
+// tryExecute is execute that returns scheduler-level hard errors (bad choice,
+// divergence from the recorded run) instead of panicking.
+func tryExecute(setup func(r *Run), prefix []int, expect []uint32, horizon int, final func(o *Outcome)) (*Outcome, string) {
 	if current.Load() != nil {
 		panic("vsched: nested exploration")
 	}
@@ -598,7 +621,7 @@ func execute(setup func(r *Run), prefix []int, expect []uint32, horizon int, fin
 	r.wg.Wait()
 	r.aborting = false
 	if r.fatal != "" {
-		panic(r.fatal)
+		return nil, r.fatal
 	}
 	o.Log = r.log
 	if final != nil {
@@ -606,7 +629,7 @@ func execute(setup func(r *Run), prefix []int, expect []uint32, horizon int, fin
 		final(o)
 		o.Log = r.log
 	}
-	return o
+	return o, ""
 }
 
 // Explore enumerates every schedule of the threads registered by setup that has
@@ -627,6 +650,21 @@ func Explore(cfg Config, setup func(r *Run), visit func(o *Outcome) bool) Stats 
 	x.explore(nil, nil, 0, 0)
 	x.st.Schedules = int64(len(x.seen))
 	return x.st
+}
+
+// exec executes one schedule; divergence from the recorded prefix is retried
+// cfg.DivergenceRetries times, then it is a hard error.
+func (x *Explorer) exec(prefix []int, expect []uint32, final func(o *Outcome)) *Outcome {
+	for try := 0; ; try++ {
+		o, fatal := tryExecute(x.setup, prefix, expect, x.cfg.Horizon, final)
+		if fatal == "" {
+			return o
+		}
+		if try >= x.cfg.DivergenceRetries || !strings.Contains(fatal, "NONDETERMINISM") {
+			panic(fatal)
+		}
+		x.st.Retries++
+	}
 }
 
 func hashChoices(c []int) uint64 {
@@ -662,7 +700,10 @@ func (x *Explorer) explore(prefix []int, expect []uint32, depth int, from int) {
 	}
 	var o *Outcome
 	if judged {
-		o = execute(x.setup, prefix, expect, x.cfg.Horizon, func(o *Outcome) {
+		o = x.exec(prefix, expect, func(o *Outcome) {
+			if x.cfg.Observe != nil {
+				o.Obs = x.cfg.Observe(o)
+			}
 			if x.visit(o) {
 				x.stop = true
 			}
@@ -694,16 +735,27 @@ func (x *Explorer) explore(prefix []int, expect []uint32, depth int, from int) {
 		if x.cfg.VerifyEvery > 0 && x.st.Executions%x.cfg.VerifyEvery == 0 {
 			d := o.Digest()
 			for k := 0; k < 2; k++ {
-				o2 := execute(x.setup, o.Choices, o.sigs, x.cfg.Horizon, func(*Outcome) {})
+				var o2 *Outcome
+				for try := 0; ; try++ {
+					o2 = x.exec(o.Choices, o.sigs, func(o2 *Outcome) {
+						if x.cfg.Observe != nil {
+							o2.Obs = x.cfg.Observe(o2)
+						}
+					})
+					if o2.Digest() == d || try >= x.cfg.DivergenceRetries {
+						break
+					}
+					x.st.Retries++
+				}
 				if o2.Digest() != d {
-					panic(fmt.Sprintf("vsched: NONDETERMINISM: replay of %v gave different observations\nfirst: %v %s %v\nreplay: %v %s %v",
-						o.Choices, o.Status, o.Msg, o.Log, o2.Status, o2.Msg, o2.Log))
+					panic(fmt.Sprintf("vsched: NONDETERMINISM: replay of %v gave different observations\nfirst: %v %s %v %s\nreplay: %v %s %v %s",
+						o.Choices, o.Status, o.Msg, o.Log, o.Obs, o2.Status, o2.Msg, o2.Log, o2.Obs))
 				}
 			}
 			x.st.Verified++
 		}
 	} else {
-		o = execute(x.setup, prefix, expect, x.cfg.Horizon, nil)
+		o = x.exec(prefix, expect, nil)
 		x.st.Spine++
 	}
 	if x.stop {
